@@ -28,3 +28,12 @@ claim('C15', 'Coq proof (work-list traversal invariant; frame lemma for add_edge
       'the extracted builder model (nodes, edges, all attributes, node_map) and with an order-free declared relation computed from the declarations.',
       'Modelled, not verified: Python introspection of annotations. Known finding D13 (duplicate source / conflicting declarations merged silently) is tolerated only on declaration sets satisfying its trigger predicate.',
       design='4 (C15)')
+claim('C20', 'Coq proof (projection theorems over the generate model; prefix typing decided on the regenerated NodeType table) + differential run of the real viewer on source-defined classes',
+      'Theorems C20_one_entry_per_node, C20_entries_describe_nodes, C20_by_prefix, C20_one_edge_per_dependency, C20_edge_endpoints_exist, C20_type_table_covers (Properties/C20.v): '
+      'for every graph, node map and declaration info the modelled description has exactly one entry per DAG node (virtual iff not in the node map, typed by its synthetic kind; '
+      'real entries carry declared name, type and doc), one edge entry per dependency with existing endpoints, and a type table covering every occurring type; by_prefix types '
+      'every switch__/input_one_of__ id correctly whatever follows the prefix (proof over the NodeType member table regenerated from /repo). On every run the real '
+      'GraphConfigImpl.generate(...).as_dict() on generated source-defined pipelines (all mark kinds, custom / enum / None node types, build_node nodes incl. nested) is '
+      'JSON-serialised, checked clause by clause against the DAG, compared with the extracted model, and the DAG is snapshotted before and after.',
+      'Not modelled: inspect.getsourcelines / code_source links and the uniqueness of the rendered edge id strings (checked by the harness only).',
+      design='4 (C20)')
